@@ -53,6 +53,11 @@ def engine_part(ctx):
         caching = rng.random() < 0.75 or shape == "stale_member"
         cases.append((G, 40, caching, [], [], hist))
         meta.append(shape)
+    # the two canonical "dependent of a popped, still provisional cycle member" graphs, for every seed
+    for G in ([(True, [([1, 2, 3], False)]), (True, [([0], False)]), (True, [([1], False)]), (False, [])],
+              [(False, [([1], False), ([2], False), ([], False)]), (False, [([0], False)]), (False, [([1], False)])]):
+        cases.append((G, 40, True, [], [], [0, 2, 1]))
+        meta.append("stale_member")
     # fresh runs of every goal that occurs last in some history, cache on and off
     fresh_idx = {}
     fresh_cases = []
@@ -181,7 +186,8 @@ def solver_part(ctx):
                     cls = "F16-slg-answer-order"
                 elif sname.startswith("rec") and H.mixed_class(p, goals):
                     cls = "F27-mixed-cycle"
-                rec = {"program": text, "solver": sname, "history": [gts[x] for x in o], "goal": gts[g],
+                rec = {"what": "answer on a used solver differs from the answer of a fresh solver",
+                       "program": text, "solver": sname, "history": [gts[x] for x in o], "goal": gts[g],
                        "history_answer": sx.to_sexp(a), "fresh_answer": sx.to_sexp(fa), "shape": p.shape, "raw": raw}
                 if cls and ctx.match_known(None, cls):
                     pair["known"] = (cls, rec)
@@ -199,7 +205,8 @@ def solver_part(ctx):
                 if H.mixed_class(p, goals) and ctx.match_known(None, "F27-mixed-cycle"):
                     pair["known"] = ("F27-mixed-cycle", {"program": text, "goal": gts[gi]})
                 elif pair["viol"] is None:
-                    pair["viol"] = {"program": text, "solver": "recursive cache on vs off (max_size 5)", "goal": gts[gi],
+                    pair["viol"] = {"what": "recursive solver answers differently with the cache on and off",
+                                    "program": text, "solver": "recursive cache on vs off (max_size 5)", "goal": gts[gi],
                                     "cache_on": sx.to_sexp(a), "cache_off": sx.to_sexp(b), "shape": p.shape}
     nviol = 0
     for (pi, sname), pair in sorted(per_pair.items()):
